@@ -16,12 +16,13 @@ if [ "$pkg" = auto ] && [ -n "$demo" ]; then
   case "$pn" in
     streamsql) pkg=./ ;;
     e2e) pkg=./test/e2e/ ;;
+    zzdemo*) pkg=./$pn/ ;;
     *) pkg=./$(cd /repo && grep -rl --include='*.go' "^package $pn\$" . | grep -v _test.go | head -1 | xargs dirname | sed 's|^\./||')/ ;;
   esac
 fi
 res_with=NA; res_without=NA; tests=NA
 if [ -n "$demo" ]; then
-  cp "$demo" "$wt/$pkg/"
+  mkdir -p "$wt/$pkg"; cp "$demo" "$wt/$pkg/"
   tname="($(grep -o 'func Test[A-Za-z0-9_]*' "$demo" | sed 's/func //' | paste -sd'|'))"
   (cd "$wt" && go test -vet=off -count=1 -run "^$tname\$" "$pkg" >/tmp/sv/$name.without.log 2>&1); res_without=$?
   (cd "$wt" && git apply "$dst/patch.diff") || { echo "patch does not apply"; exit 1; }
